@@ -328,6 +328,11 @@ fn tl_eval(cfg: &TlCfg, hist: &[TlOp], prop: &str) -> EvalOut {
         if c2.verif_state() != st {
             out.findings.push(Finding::new("C16", "tinylfu_clone", "snapshot", format!("clone of a TinyLFU differs from the original after {:?}", hist)));
         }
+        for k in &keyed {
+            if c2.hash_key(k) != l.hash_key(k) || c2.estimate(k) != l.estimate(k) || c2.contains(k) != l.contains(k) {
+                out.findings.push(Finding::new("C16", "tinylfu_clone", "key_queries", format!("the clone answers hash_key/estimate/contains of key {} differently from the original after {:?}", k, hist)));
+            }
+        }
         let ops = tl_ops(cfg);
         for op in &ops {
             let mut a = l.clone();
@@ -393,6 +398,8 @@ fn tl_menu(prop: &str, tier: Tier) -> Vec<(TlCfg, usize, usize)> {
             v.push((TlCfg { size: 4, samples: 4, fpr: 5e-324, seeds: seeds[3], hashes: c05_hashes.clone(), key_ops: false }, 20_000, 3));
         }
         "C16" => {
+            // key-based entry points: the clone must hash keys exactly as the original does
+            v.push((TlCfg { size: 4, samples: 4, fpr: 0.01, seeds: seeds[0], hashes: vec![1], key_ops: true }, usize::MAX, if big { 6 } else { 4 }));
             v.push((TlCfg { size: 2, samples: 3, fpr: 0.01, seeds: seeds[0], hashes: base_hashes.clone(), key_ops: false }, 50_000, if big { 12 } else { 8 }));
             v.push((TlCfg { size: 4, samples: 4, fpr: 0.5, seeds: seeds[2], hashes: base_hashes.clone(), key_ops: false }, 50_000, if big { 10 } else { 6 }));
         }
@@ -715,8 +722,12 @@ pub fn run_sampled(prop: &'static str, tier: Tier) -> EngineReport {
     let costs_small = vec![-3i64, 1, 5];
     let costs_wide = vec![-3i64, 0, 1, 5, 1 << 40];
     for ctor in 0..7u8 {
-        let samples = [2usize, 0, 1, 5, 2, 1, 2][ctor as usize];
+        let samples = [2usize, 0, 1, 3, 2, 1, 2][ctor as usize];
         menu.push((SlCfg { ctor, max_cost: 100, samples, costs: if big && ctor % 3 == 0 { costs_wide.clone() } else { costs_small.clone() }, hasher: if ctor % 2 == 0 { HKind::SipA } else { HKind::Zero } }, if big { 60 } else { 12 }));
+    }
+    // explicit sample sizes above the default as well
+    for (ctor, samples) in [(1u8, 7usize), (3, 6), (5, 8), (6, 9)] {
+        menu.push((SlCfg { ctor, max_cost: 10, samples, costs: vec![-3, 5], hasher: HKind::Identity }, if big { 60 } else { 10 }));
     }
     if prop == "C05" {
         menu.truncate(3);
